@@ -432,9 +432,11 @@ theorem C18_before_problem (d : Decl) (hd : ∀ n h, d ≠ .problem n h) :
       case resourceUtilization res => simp [State.resolveI, State.ownBusy, State.findWorker, State.findCumul, fail]
       case resourceCost rs =>
         cases rs with
-        | nil => simp only [State.resolveI, List.mapM_nil, Option.map_some]; apply hio
+        | nil => simp only [State.resolveI, List.mapM_nil]; apply hio
         | cons r rest => simp [State.resolveI, State.costItems, State.findWorker, State.findCumul, fail]
       case maximizeMaxBuffer b => simp [State.resolveI, State.findBuffer, fail]
       case minimizeMaxBuffer b => simp [State.resolveI, State.findBuffer, fail]
+      case flowtimeSingleResource res interval =>
+        simp [State.ownBusy, State.findWorker, State.findCumul, fail]
 
 end PS
